@@ -115,6 +115,10 @@ func TestEngine(t *testing.T) {
 			}
 			plan := def.Gen(seed, i, tier)
 			progress(fmt.Sprintf("%s seed=%d index=%d", check, seed, i))
+			if out.f != nil {
+				// a panic on one of Helm's own goroutines kills the process: leave a note saying which plan ran
+				os.WriteFile(out.f.Name()+".cur", []byte(fmt.Sprintf("%d", i)), 0o644)
+			}
 			if os.Getenv("VERIF_RACE") != "" {
 				// the race detector reports on stderr; mark which plan is running and keep it for replay
 				pf := savePlan(out, plan, "-race")
@@ -175,6 +179,11 @@ func TestEngine(t *testing.T) {
 			t.Fatal(err)
 		}
 		fmt.Printf("MINIMISED signature=%s runs=%d steps=%d file=%s\n", sig, runs, len(min.Steps), dst)
+	case "gen":
+		plan := def.Gen(seed, from, tier)
+		if err := plan.Save(os.Getenv("VERIF_MIN_OUT")); err != nil {
+			t.Fatal(err)
+		}
 	case "hashes":
 		// determinism self-test: print the event-log hash of every index
 		for i := from; i < to; i++ {
